@@ -49,10 +49,10 @@ type tcase struct {
 	Depth   int // exec nesting depth of the innermost message (0 = none)
 	Tx      []byte
 	Note    map[string]any
-	Signers []common.Address // accounts that signed as Cosmos signers
-	Payers  []common.Address // accounts named as fee payer / fee granter without signing
-	EthFrom []common.Address // senders of embedded Ethereum transactions
-	Fresh   []common.Address // addresses that only exist if an inner handler ran (recipients, vesting targets)
+	Signers []common.Address    // accounts that signed as Cosmos signers
+	Payers  []common.Address    // accounts named as fee payer / fee granter without signing
+	EthFrom []common.Address    // senders of embedded Ethereum transactions
+	Fresh   []common.Address    // addresses that only exist if an inner handler ran (recipients, vesting targets)
 	Grants  [][2]common.Address // (granter, grantee) of grants the tx tries to create
 	V       *laneVerdict
 	Code    [4]int64 // per mode: -1 not run, else result code
@@ -68,14 +68,14 @@ func (t *tcase) feat(f string) { t.Feats = append(t.Feats, f) }
 
 // gen state shared by the builders of one case
 type genCtx struct {
-	w   *world
-	r   *vh.RNG
-	sl  *slot
-	t   *tcase
-	bf  *big.Int
-	now time.Time
-	ht  int64
-	nonceUsed map[common.Address]uint64 // extra nonces consumed inside this case
+	w          *world
+	r          *vh.RNG
+	sl         *slot
+	t          *tcase
+	bf         *big.Int
+	now        time.Time
+	ht         int64
+	nonceUsed  map[common.Address]uint64 // extra nonces consumed inside this case
 	feeTouched bool
 }
 
